@@ -241,19 +241,36 @@ def assemble_and_verify(unit, outdir, seed=None, rlimit=None, timeout=900, cache
             res['tool_scoped'].append({'tags': d['tags'], 'clause': k,
                                        'msg': 'fn %s could not be brought through the verifier (%s); demoted to %s: its obligations %s are undecided' %
                                               (k, reasons.get(k, '?'), 'an assumed contract' if v == 'import' else 'a bare signature', d['clauses'][:6])})
-        # a caller of a function whose contract is gone cannot be blamed for a failed proof
-        if bare_names:
-            src = open(rs).read().split('\n')
-            keep = []
-            for f in res['failed']:
-                rng = [(a, b) for a, b, i in meta['linemap'] if i.get('kind') == 'fnbody' and i.get('fn') == f['fn']]
-                body = '\n'.join(src[rng[0][0] - 1:rng[0][1]]) if rng else ''
-                if any(re.search(r'\b%s\s*\(' % re.escape(n), body) for n in bare_names):
-                    res['tool_scoped'].append({'tags': f.get('tags', []), 'clause': f['clause'],
-                                               'msg': 'obligation %s of %s depends on a demoted callee (%s): undecided' % (f['clause'], f['fn'], bare_names)})
-                else:
-                    keep.append(f)
-            res['failed'] = keep
+        # Every function that (transitively) calls a demoted function relies on a contract that is no longer proved in this
+        # run: ITS obligations are undecided too (otherwise a changed callee could hide behind its assumed contract).
+        # Callers are found by name in the emitted bodies; a demoted trait impl is dispatched implicitly (`?`, `.into()`,
+        # `try_into()`), so it taints the whole unit.
+        src = open(rs).read().split('\n')
+        bodies = {}
+        for a_, b_, i_ in meta['linemap']:
+            if i_.get('kind') == 'fnbody':
+                bodies[i_['fn']] = '\n'.join(src[a_ - 1:b_])
+        fn_tags = {f['key']: sorted(set(t for c in f['clauses'] for t in c['tags']) | set(f['safety_tags'])) for f in meta['functions']}
+        taint_all = any(k.startswith('<') for k in demote)
+        tainted = set()
+        names = set(dem[k]['name'] for k in demote if k in dem)
+        changed = True
+        while changed:
+            changed = False
+            for fk, body in bodies.items():
+                if fk in tainted:
+                    continue
+                if taint_all or any(re.search(r'\b%s\s*\(' % re.escape(n), body.split('{', 1)[1] if '{' in body else body) for n in names):
+                    tainted.add(fk)
+                    nm = fk.split('::')[-1]
+                    if nm not in names:
+                        names.add(nm)
+                        changed = True
+        for fk in sorted(tainted):
+            res['tool_scoped'].append({'tags': fn_tags.get(fk, []), 'clause': fk,
+                                       'msg': 'fn %s depends on demoted function(s) %s: its obligations are undecided in this run' % (fk, sorted(demote))})
+        res['failed'] = [f for f in res['failed'] if f['fn'] not in tainted]
+        res['tainted'] = sorted(tainted)
     res['demoted'] = demote
     return rs, meta, run, res
 
